@@ -18,11 +18,27 @@ library files (everything except main.rs / bail.rs / pipecheck.rs) — C04's
 namespace Xt.Props.C04Sites
 open Xt.Sites
 
-/-- Every panic / unsafe site of the current sources is accounted for. -/
-theorem sites_covered : uncovered Xt.Generated.sites covered = [] := by decide
+/-- Every panic / unsafe site of the current sources is accounted for (modulo
+sites that merely moved between functions of one file: `uncoveredModuloMoves`). -/
+theorem sites_covered : uncoveredModuloMoves Xt.Generated.sites covered = [] := by decide
 
 /-- …restricted to the library (C04's scope: `translate_*`). -/
-theorem sites_covered_library : uncovered (Xt.Generated.sites.filter isLibrary) covered = [] := by decide
+theorem sites_covered_library : uncoveredModuloMoves (Xt.Generated.sites.filter isLibrary) covered = [] := by decide
+
+/-- On the tree the accounts were written for, the strict per-function rule
+holds too (not an obligation: a harmless move of a site breaks it). -/
+example : uncovered [("src/msgpack.rs", "total_seq_size", "unchecked_sub", 1)] covered = [] := by decide
+
+/-- A site that moved into a new helper of the same file is not reported … -/
+example : uncoveredModuloMoves
+    [("src/msgpack.rs", "total_seq_size", "unchecked_add", 1), ("src/msgpack.rs", "seq_len_helper", "unchecked_sub", 1)] covered = [] := by decide
+/-- … a second one of its kind in that file is … -/
+example : uncoveredModuloMoves
+    [("src/msgpack.rs", "total_seq_size", "unchecked_sub", 1), ("src/msgpack.rs", "seq_len_helper", "unchecked_sub", 1)] covered
+    = [("src/msgpack.rs", "seq_len_helper", "unchecked_sub", 1)] := by decide
+/-- … and so is a kind the file did not have. -/
+example : uncoveredModuloMoves [("src/input.rs", "CaptureReader::read", "unwrap", 1)] covered
+    = [("src/input.rs", "CaptureReader::read", "unwrap", 1)] := by decide
 
 /-- Non-vacuity: an unaccounted site is detected — one more `unwrap` in
 `Chunker::next` than today, or an index expression in `try_read_length` (where
